@@ -390,7 +390,13 @@ def run_streams(tape):
       # finally close what was kept
       for s, stream in sorted(live.items()):
         stream.close(200)
-      core.sim_sleep(0.5)   # let the device read the last CLSE packets
+      # let the device read the last CLSE packets (it serves one host packet per turn and pauses
+      # between its own writes, so the time it needs grows with the number of packets queued)
+      for _ in range(100):
+        if not tr.h2d.chunks:
+          break
+        core.sim_sleep(0.2)
+      core.sim_sleep(0.5)
       dev.done = True
       dth.join(20.0)
     except core.SimAbort:
